@@ -60,12 +60,11 @@ def error_to_idle(ck, F, E):
         return
     # return_to_idle_state assigns Idle to self.state on every path
     ok = False
-    for b, i, pl, rv, sp in ri.assigns():
-        fs = [p for p in pl["proj"] if p["k"] == "field"]
-        if fs and fs[-1].get("name") == "state":
-            e = ri.rv_expr(rv)
-            if e[0] == "agg" and e[2] == "Idle" and b in ri.postdominators().get(0, set()):
-                ok = True
+    from lib import field_stores
+    for (b, e, sp) in field_stores(F, ri, "state"):        # directly or through a trivial setter
+        e = strip_expr(e)
+        if e[0] == "agg" and e[2] == "Idle" and (b in ri.postdominators().get(0, set()) or b == 0):
+            ok = True
     ck.require(ok, "C01:IDLE:return_to_idle_state", "errors lead to Idle",
                "return_to_idle_state assigns InterpreterState::Idle on every path",
                "return_to_idle_state no longer sets the state to Idle on every path", ri.span)
@@ -97,6 +96,9 @@ def error_to_idle(ck, F, E):
         if d is not None and d[0] == "call" and sfx(d[2].callee, "Interpreter::postprocess_result"):
             arg = strip_expr(b.expr(d[2].args[1]))
             ok = arg[0] == "call" and sfx(arg[1], inner)
+        if not ok:
+            from lib import delegated_step
+            ok = delegated_step(F, b, inner, "Interpreter::postprocess_result") is not None
         ck.require(ok, "C01:IDLE:%s" % fn.split("::")[-1], "errors lead to Idle",
                    "%s returns postprocess_result(%s(..))" % (fn.split("::")[-1], inner.split("::")[-1]),
                    "%s no longer routes its result through postprocess_result: an error would leave the "
